@@ -35,6 +35,8 @@ EFF = "[policy_effect]\ne = some(where (p.eft == allow))\n[matchers]\n"
 MODELS = {
     "rbac2": HEAD + "p = sub, obj, act\np2 = sub, act\n[role_definition]\ng = _, _\ng2 = _, _\n" + EFF + "m = g(r.sub, p.sub) && r.obj == p.obj && r.act == p.act\n",
     "dom": "[request_definition]\nr = sub, dom, obj\n[policy_definition]\np = sub, dom, obj\n[role_definition]\ng = _, _, _\n" + EFF + "m = g(r.sub, p.sub, r.dom) && r.dom == p.dom && r.obj == p.obj\n",
+    # a conditional role definition (the bundled temporal-roles shape): the third field of a g rule is the stored parameter
+    "cond": HEAD + "p = sub, obj, act\n[role_definition]\ng = _, _, (_)\n" + EFF + "m = g(r.sub, p.sub) && r.obj == p.obj && r.act == p.act\n",
     "nog": HEAD + "p = sub, obj, act\np2 = sub, act\n" + EFF + "m = r.sub == p.sub && r.obj == p.obj && r.act == p.act\n",
 }
 NAMES = ["v1", "v2", "v3"]
@@ -69,7 +71,7 @@ def fmt_exc(ex):
         return "!cannotSaveFiltered"
     if isinstance(ex, RuntimeError) and s == "invalid filter type":
         return "!invalidFilter"
-    if isinstance(ex, RuntimeError) and s == "grouping policy elements do not meet role definition":
+    if isinstance(ex, (RuntimeError, TypeError)) and s == "grouping policy elements do not meet role definition":
         return "!roleDefinition"
     if isinstance(ex, RuntimeError) and s == "invalid file path, file path cannot be empty":
         return "!invalidPath"
@@ -135,7 +137,7 @@ def run_fl(part, casbin):
 
 def gen_file(rng, mname, mode):
     """policy text. mode: 'in' = plain files, 'out' = hard files (what F20 was about), 'raise' = with raising lines / short g rules"""
-    dom = mname == "dom"
+    dom = mname in ("dom", "cond")  # three fields after "g" (user, role, domain / stored parameter), no p2 / g2
     ls = []
     n = rng.choice([0, 1, 2, 3, 4, 6, 8])
     for _ in range(n):
@@ -185,7 +187,7 @@ def gen_filter(rng, mname, mode):
     r = rng.random()
     if r < 0.06:
         return None
-    glen = 3 if mname == "dom" else 2
+    glen = 3 if mname in ("dom", "cond") else 2
     vals = FVALS + (["v3"] if rng.random() < 0.3 else [])
     if mode == "in":
         P = [rng.choice(vals) for _ in range(rng.randrange(0, 4))]
@@ -234,7 +236,20 @@ def edges_of(e, mname):
             else:
                 for r in rm.get_roles(a):
                     out.add((key, a, r))
+    for key, crm in getattr(e, "cond_rm_map", {}).items():
+        # a conditional definition keeps its links in its conditional manager (mname "cond": no domains)
+        for a in NAMES + ["f(v1", "V1", ""]:
+            for r in crm.get_roles(a):
+                out.add((key, a, r))
     return sorted(out)
+
+
+def proj_edges(mname, edges):
+    """the links of a conditional definition are compared as (key, user, role): the third field of the rule is the
+    link's stored parameter (the last rule of a (user, role) pair decides it), not part of the link"""
+    if mname != "cond":
+        return edges
+    return sorted({tuple(e[:3]) for e in edges})
 
 
 def edges_of_store(st, known_names=None):
@@ -279,6 +294,9 @@ def oracle_decisions(casbin, mname, store):
             e.model.model[k[0]][k].policy = [list(r) for r in rs]
         try:
             e.build_role_links()
+            for crm in e.cond_rm_map.values():  # the reference holds the links of a conditional definition as well
+                crm.clear()
+            e.model.build_conditional_role_links(e.cond_rm_map)
             _ORACLE[key] = decisions(e)
         except Exception:  # noqa: a subset whose links cannot be built has no reference decisions
             _ORACLE[key] = None
@@ -373,7 +391,7 @@ def eval_history(casbin, part, mode, mname, text, ops, ans, tmp):
         # ---- the tie: result, memory, flag, file, links
         impl_state = (res, enc_store(store), common.enc_bool(filtered), enc_str(ftext))
         model_state = (model.split(",")[0], mo["mem"], mo["filtered"], mo["file"])
-        medges = restrict_edges(sorted({tuple(dec_str(x) for x in r.split("|")) for r in ([] if mo["links"] == "~" else mo["links"].split(";"))}))
+        medges = restrict_edges(proj_edges(mname, sorted({tuple(dec_str(x) for x in r.split("|")) for r in ([] if mo["links"] == "~" else mo["links"].split(";"))})))
         if impl_state != model_state or [tuple(x) for x in edges] != medges:
             part.disagree(dict(case, what=f"step {i} ({op[0]}): Enforcer+FilteredFileAdapter vs Model.step", step=i, impl=impl_state + (edges,), model=model_state + (medges,)))
             # the states before this step agreed, so the specification of this step still applies to the
@@ -394,7 +412,7 @@ def eval_history(casbin, part, mode, mname, text, ops, ans, tmp):
                 sstore, sflag = spec.split(",")
                 if res == "ok" and any(r for _, _, r in store):
                     part.nontrivial.add(hash((mname, text, repr(ops[: i + 1]))))
-                sedges = restrict_edges(edges_of_store(dec_store(sstore)))
+                sedges = restrict_edges(proj_edges(mname, edges_of_store(dec_store(sstore))))
                 exp = ("ok", sstore, sflag, sedges)
                 got = (res, enc_store(store), common.enc_bool(filtered), [tuple(x) for x in edges])
                 mgot = (model.split(",")[0], mo["mem"], mo["filtered"], medges)
@@ -412,7 +430,7 @@ def eval_history(casbin, part, mode, mname, text, ops, ans, tmp):
                     found.append(
                         dict(
                             case,
-                            signature=f"{op[0]}:{which}",
+                            signature=f"{op[0]}:{which}" + (":conditional-role-definition" if mname == "cond" else ""),
                             what=f"step {i}: {op[0]}({op[1] if len(op) > 1 else ''}) on file {text!r}: loaded {show(got)}; the filtered subset is {show(exp)}",
                             step=i,
                             expected=list(exp),
@@ -495,7 +513,7 @@ def hist_job(job):
         rng = random.Random(seed)
         cases = []
         for _ in range(n):
-            mname = rng.choice(["rbac2", "rbac2", "dom", "nog"])
+            mname = rng.choice(["rbac2", "rbac2", "dom", "nog", "cond"])
             cases.append((mname, gen_file(rng, mname, mode), gen_ops(rng, mname, mode)))
     dl = []
     for mname, text, ops in cases:
@@ -676,7 +694,7 @@ def _stage(ctx, res, nin, nout, nraise):
     res.rule = (
         f"filter_line on {len(FL_LINES)} lines x every filter over {FVALS}^<=3 x ^<=3 (exhaustive); {nin} generated plain policy files, {nout} hard ones "
         f"(bracketed / leading commas before filtered positions, filters longer than the rule, padded values) and {nraise} with raising lines, each with a random sequence (<= 4) of load_filtered_policy / load_increment_filtered_policy / load_policy / "
-        "save_policy / adapter.save_policy (a quarter of the histories with a window in which the policy file is missing) on Enforcer+FilteredFileAdapter over real temp files (models rbac2, dom, nog); after every step policy of every type, is_filtered, "
+        "save_policy / adapter.save_policy (a quarter of the histories with a window in which the policy file is missing) on Enforcer+FilteredFileAdapter over real temp files (models rbac2, dom, nog, cond = a conditional role definition g = _, _, (_)); after every step policy of every type, is_filtered, "
         "links (get_roles), result and file text are compared; the enforcer's own save guard with two in-memory filtered adapters that are not the bundled one (interface-based, duck-typed), and after every successful load all 27 requests over the names are decided by enforce() and by a fresh enforcer holding exactly the specified subset; non-trivial = a load leaving rules in memory / a refused save"
     )
 
